@@ -160,6 +160,24 @@ def make_trace(tid, rng, nops=25, **opt):
         h.append(hh)
         al.append(a)
         ze.append(z)
+    if datafile and not runs:
+        # offset 0 of the data file is a valid place for a cluster: put one there whose successor is stored somewhere else
+        pairs_ = [c_ for c_ in range(nc - 1) if t[c_] == "N" and t[c_ + 1] == "N"]
+        if pairs_:
+            c_ = rng.choice(pairs_)
+            users = {h[x]: x for x in range(nc) if t[x] in ("N", "ZA")}
+            if 0 in users and users[0] != c_:
+                h[users[0]], h[c_] = h[c_], 0
+            else:
+                h[c_] = 0
+            if h[c_ + 1] == 1:
+                other = [x for x in range(nc) if t[x] in ("N", "ZA") and x not in (c_, c_ + 1)]
+                if other:
+                    x = rng.choice(other)
+                    h[x], h[c_ + 1] = h[c_ + 1], h[x]
+            if ext:
+                al[c_] = al[c_ + 1] = 0xFFFFFFFF
+                ze[c_] = ze[c_ + 1] = 0
     back = rng.choice([-1, -1, nc, nc - 1, max(1, nc // 2)])
     tail = rng.choice([0, 0, 512, cs // 2])
     size_b = nc * cs - tail
@@ -249,6 +267,9 @@ def run(ctx):
     diskprop.replay_states(ctx, "qcow2", sts, STD_T if thorough else STD_Q, build, attrs_of=_attrs, cap=48 if thorough else 28)
     sts = diskprop.dump_states(ctx, "Qcow2", "Qcow2ext_img.cfg")
     diskprop.replay_states(ctx, "qcow2", sts, EXT_T if thorough else EXT_Q, build, attrs_of=_attrs, cap=48 if thorough else 28)
+    # the active image reads as its own content whatever is done with its internal snapshots (opened before / after its first read)
+    import importlib
+    importlib.import_module("props.c07").qcow2_snapshots(ctx, random.Random(ctx.seed + 101), 12 if thorough else 6)
     diskprop.traces(ctx, "qcow2", lambda tid, r: trace_for(tid, r, thorough), 320 if thorough else 64,
                     "TraceDisk", "TraceDisk.cfg", lambda t: {"format": "qcow2", "ext": t["img"]["ext"], "datafile": t["img"]["datafile"]})
 
